@@ -63,17 +63,29 @@ func VerifC12Writers(content string, c1, c2 int, k0, k1, k2 int, single bool) in
 	if err != nil {
 		return 1
 	}
+	if len(hs) != len(names) {
+		return 4
+	}
+	sofar := ""
 	for _, c := range chunks(content, c1, c2) {
 		n, err := w.Write([]byte(c))
 		if err != nil || n != len(c) {
 			return 2
 		}
+		// a checkpoint after every write: the length and digest of the stream so far (asking does not disturb
+		// what follows)
+		sofar += c
+		for i, h := range hs {
+			if h.Size() != int64(len(sofar)) {
+				return 8
+			}
+			if !bytes.Equal(h.Sum(nil), refDigest(names[i], sofar)) {
+				return 9
+			}
+		}
 	}
 	if target.String() != content {
 		return 3
-	}
-	if len(hs) != len(names) {
-		return 4
 	}
 	for i, h := range hs {
 		if h.Name() != names[i] {
@@ -84,6 +96,10 @@ func VerifC12Writers(content string, c1, c2 int, k0, k1, k2 int, single bool) in
 		}
 		if !bytes.Equal(h.Sum(nil), refDigest(names[i], content)) {
 			return 7
+		}
+		// Sum appends to what it is given, and may be asked again
+		if !bytes.Equal(h.Sum([]byte("x")), append([]byte("x"), refDigest(names[i], content)...)) {
+			return 10
 		}
 	}
 	return 0
